@@ -41,6 +41,12 @@ class Cache:
         return f
 
 
+class ColdCache(Cache):
+    """a cache object that is FALSY (a dict-backed fake that is still empty: `len()` is 0) - it is a configured cache all the same"""
+    def __len__(self):
+        return 0
+
+
 WRITES = {
     "set": ("key", "value", "expire", "noreply"), "add": ("key", "value", "expire", "noreply"),
     "replace": ("key", "value", "expire", "noreply"), "append": ("key", "value", "expire", "noreply"),
@@ -55,6 +61,13 @@ DEFAULTS = {"expire": 0, "noreply": True, "delay": 0}
 # histories on ONE object, compared step by step with the Lean model `FallbackHist.run` (driver command `fallbackhist`)
 # ---------------------------------------------------------------------------------------------------------------------------------
 READ_OPS = ("get", "gets", "get_many", "gets_many")
+
+
+def ph(op, p_):
+    """a well-typed, recognisable argument value for parameter p_ of the mutating operation op (a delta for incr / decr)"""
+    if p_ == "value" and op in ("incr", "decr"):
+        return 11
+    return {"key": "kArg", "value": "vArg", "expire": 33, "noreply": False, "cas": "77", "delay": 9}[p_]
 
 
 def tok(x):
@@ -307,25 +320,38 @@ def main(argv):
     # writes
     for n in range(1, 5):
         for op, params in WRITES.items():
-            for form, style in [(f_, s_) for f_ in ("positional", "keyword", "defaults") for s_ in ("sentinel", "falsy", "none", "realistic")]:
+            for form, style in [(f_, s_) for f_ in ("positional", "keyword", "defaults") for s_ in ("sentinel", "falsy", "none", "realistic", "negative")]:
                 log = []
                 fc = FallbackClient([Cache(i, HIT, log) for i in range(n)])
                 # the values the caller passes: recognisable sentinels; falsy ones (noreply=False, expire=0, an empty value, delay 0 - whatever the
                 # parameter's default is, what was passed is what must arrive); None for everything optional; ordinary ones
                 falsy = {"key": "k", "value": b"", "expire": 0, "noreply": False, "cas": b"0", "delay": 0}
                 realistic = {"key": "user:1", "value": b"payload", "expire": 300, "noreply": False, "cas": b"12", "delay": 5}
-                vals = {p: (("arg", p) if style == "sentinel" else falsy[p] if style == "falsy" else realistic[p] if style == "realistic" else
+                vals = {p: (("arg", p) if style == "sentinel" else falsy[p] if style == "falsy" else realistic[p] if style in ("realistic", "negative") else
                             (None if p in DEFAULTS else ("arg", p))) for p in params}
-                if form == "positional":
-                    getattr(fc, op)(*[vals[p] for p in params])
-                    want = tuple(vals[p] for p in params)
-                elif form == "keyword":
-                    getattr(fc, op)(**vals)
-                    want = tuple(vals[p] for p in params)
-                else:
-                    req = [p for p in params if p not in DEFAULTS]
-                    getattr(fc, op)(*[vals[p] for p in req])
-                    want = tuple(vals[p] if p not in DEFAULTS else DEFAULTS[p] for p in params)
+                if op in ("incr", "decr"):
+                    # the second argument of incr / decr is a delta: zero, ordinary, negative and huge ones are all the caller's business (the server judges them)
+                    vals["value"] = {"sentinel": ("arg", "value"), "falsy": 0, "none": ("arg", "value"), "realistic": 7, "negative": (-7 if n % 2 else -2 ** 63)}[style]
+                elif style == "negative":
+                    continue
+                try:
+                    if form == "positional":
+                        getattr(fc, op)(*[vals[p] for p in params])
+                        want = tuple(vals[p] for p in params)
+                    elif form == "keyword":
+                        getattr(fc, op)(**vals)
+                        want = tuple(vals[p] for p in params)
+                    else:
+                        req = [p for p in params if p not in DEFAULTS]
+                        getattr(fc, op)(*[vals[p] for p in req])
+                        want = tuple(vals[p] if p not in DEFAULTS else DEFAULTS[p] for p in params)
+                except Exception as e:
+                    if style in ("sentinel", "none"):
+                        ctx.count("write refused for placeholder argument values (no verdict)")
+                    else:
+                        ctx.violation("a mutating operation raised for ordinary argument values",
+                                      {"op": op, "form": form, "argument_values": style, "passed": repr(vals)[:120], "caches": n, "error": repr(e)[:80]}, tags=["write-raised"])
+                    continue
                 case = {"op": op, "form": form, "argument_values": style, "passed": repr(vals)[:120], "caches": n, "log": repr(log)}
                 ctx.case(("write", op, form, style, n), sample=case if (op == "cas" and n == 2 and form == "defaults" and style == "sentinel") else None)
                 ctx.count("write:" + op)
@@ -348,7 +374,7 @@ def main(argv):
                         Cache.write_answer = answer
                         log = []
                         fc = FallbackClient([Cache(i, HIT, log) for i in range(n)])
-                        vals = {p_: ("arg", p_) for p_ in params}
+                        vals = {p_: ph(op, p_) for p_ in params}
                         try:
                             got = getattr(fc, op)(*[vals[p_] for p_ in params]) if form == "positional" else getattr(fc, op)(**vals)
                         except Exception as e:
@@ -376,7 +402,7 @@ def main(argv):
                     hists.append(rec)
                     rec.call(rop, "k" if rop in ("get", "gets") else ["k", "j"])
                     del log[:]
-                    vals = {p_: ("arg", p_) for p_ in params}
+                    vals = {p_: ph(wop, p_) for p_ in params}
                     if "key" in params:
                         vals["key"] = "k"
                     try:
@@ -421,7 +447,7 @@ def main(argv):
                 case = {"caches_before": n, "change": change, "object_used_before": used_before}
                 for wop, params in WRITES.items():
                     del log[:]
-                    rec.call(wop, **{p_: ("arg", p_) for p_ in params})
+                    rec.call(wop, **{p_: ph(wop, p_) for p_ in params})
                     if [e[0] for e in log] != [now[0].idx] or log[0][1] != wop:
                         ctx.violation("after the list of caches was changed, a mutating operation was not applied to exactly the (new) first cache",
                                       dict(case, write=wop, went_to=[e[0] for e in log], first_cache_now=now[0].idx), tags=["history", "reconfigure"])
@@ -434,6 +460,45 @@ def main(argv):
                 if [e[0] for e in log] != want:
                     ctx.violation("after the list of caches was changed, a read did not consult the caches in the (new) configured order",
                                   dict(case, consulted=[e[0] for e in log], want=want), tags=["history", "reconfigure"])
+    # cache objects that are falsy (container-like fakes that are empty when the client is built - the cold new cache in front of the warm old one):
+    # what is configured is what is consulted / written, whatever bool(cache) says
+    for n in (1, 2, 3):
+        for cold in itertools.product([False, True], repeat=n):
+            if not any(cold):
+                continue
+            for hitpos in list(range(n)) + [None]:
+                log = []
+                try:
+                    fc = FallbackClient([(ColdCache if cold[i] else Cache)(i, HIT if i == hitpos else NONE, log) for i in range(n)])
+                except Exception as e:
+                    ctx.violation("FallbackClient could not be built over its configured caches", {"caches": n, "falsy": list(cold), "error": repr(e)[:80]}, tags=["falsy-cache-object"])
+                    continue
+                ctx.case(("falsy-cache-object", n, cold, hitpos))
+                ctx.count("falsy cache objects")
+                case = {"caches": n, "falsy_cache_objects": [i for i in range(n) if cold[i]], "hit_in_cache": hitpos}
+                bad = None
+                for wop, params in WRITES.items():
+                    del log[:]
+                    try:
+                        getattr(fc, wop)(**{p_: ph(wop, p_) for p_ in params})
+                    except Exception as e:
+                        bad = f"{wop} raised {e!r}"[:100]
+                        break
+                    if [e[0] for e in log] != [0] or log[0][1] != wop:
+                        bad = f"{wop} was applied to cache(s) {[e[0] for e in log]}, not to the first configured one"
+                        break
+                for rop in READ_OPS:
+                    del log[:]
+                    try:
+                        getattr(fc, rop)("k" if not rop.endswith("many") else ["k"])
+                    except Exception as e:
+                        bad = bad or f"{rop} raised {e!r}"[:100]
+                        continue
+                    want = list(range(n if hitpos is None else hitpos + 1))
+                    if bad is None and [e[0] for e in log] != want:
+                        bad = f"{rop} consulted caches {[e[0] for e in log]}, configured order says {want}"
+                if bad:
+                    ctx.violation("with cache objects that are falsy: " + bad, case, tags=["falsy-cache-object"])
     # operations that are neither reads nor writes (close, quit, stats) leave the configuration alone: afterwards - the application may go on using
     # the object, e.g. after a reconnect - writes still go to the first cache and reads still start there
     for n in (1, 2, 3, 4):
@@ -456,7 +521,7 @@ def main(argv):
                 bad = None
                 for wop, params in WRITES.items():
                     del log[:]
-                    rec.call(wop, **{p_: ("arg", p_) for p_ in params})
+                    rec.call(wop, **{p_: ph(wop, p_) for p_ in params})
                     if [e[0] for e in log] != [0] or log[0][1] != wop:
                         bad = f"{wop} was applied to cache(s) {[e[0] for e in log]}, not to the first one"
                         break
@@ -529,7 +594,8 @@ def main(argv):
             elif step == "write":
                 wop = rng.choice(list(WRITES))
                 params = WRITES[wop]
-                vals = {p_: ("arg", p_ + str(rng.randrange(3))) for p_ in params}
+                vals = {p_: rng.choice([ph(wop, p_), ph(wop, p_), {"key": "k2", "value": "", "expire": 0, "noreply": rng.choice([True, False, None]), "cas": "0", "delay": 0}[p_]
+                                        if not (p_ == "value" and wop in ("incr", "decr")) else rng.choice([0, 1, -5, 2 ** 64 - 1])]) for p_ in params}
                 form = rng.choice(["positional", "keyword", "defaults", "mixed"])
                 if form == "positional":
                     a, kw = [vals[p_] for p_ in params], {}
